@@ -26,7 +26,8 @@ EXTENDS Link, Json
 CONSTANTS Shapes,    \* set of <<k, n>>
           Variants,  \* set of variant names
           Export,    \* print CASE records
-          Pick       \* 0 = every variant of every pattern; n > 0 = a slice of two variants per pattern chosen by n
+          Pick,      \* 0 = every variant of every pattern; n > 0 = a slice of two variants per pattern chosen by n
+          Half       \* 0 = every pattern; 1, 2 = one half of the patterns (to spread a shape over two TLC runs)
 
 VARIABLES label, g, L, designFailing,
           loaded,   \* sequence of user entry points loaded so far
@@ -125,11 +126,13 @@ Selected(k, m, v) ==
          nv == Len(VariantSeq)
      IN (VIndex(v) - 1) \in {h % nv, (3 * h + 7) % nv}
 
+InHalf(m) == Half = 0 \/ (MaskHash(m, 1) % 2) + 1 = Half
+
 Family ==
   UNION {UNION {{[label |-> LabelOf(sh[1], m, v), k |-> sh[1], masks |-> m, variant |-> v,
                   graph |-> Apply(v, Base(sh[1], sh[2], m), sh[1], sh[2])]
                    : v \in {w \in Variants : (sh[2] >= 2 \/ w \notin NeedsTwo) /\ Selected(sh[1], m, w)}}
-                 : m \in Masks(sh[1], sh[2])}
+                 : m \in {m2 \in Masks(sh[1], sh[2]) : InHalf(m2)}}
            : sh \in Shapes}
 
 -----------------------------------------------------------------------------
